@@ -78,19 +78,25 @@ Before(counts, i) == IF i <= 1 THEN 0 ELSE counts[i - 1] + Before(counts, i - 1)
 RefName(sch, kind, n) == IF kind.tid # "ref" THEN ""
                          ELSE IF kind.target \in 1..n THEN ObjNamesOf(sch)[kind.target] ELSE Outside
 
-MkProp(sch, k, m, kind, n) ==      \* k-th of the m properties of an object
+MkProp(sch, k, m, kind, n) ==      \* k-th property; m = most properties among the objects of its group
     LET nm == PropNamesOf(sch)[k]
         rf == RefName(sch, kind, n)
     IN [name |-> nm, title |-> NameTable[nm].title,
         key |-> KeyIn(nm, {PropNamesOf(sch)[x] : x \in 1..m}), tid |-> kind.tid,
         ref |-> rf, reftitle |-> IF rf = "" THEN "" ELSE NameTable[rf].title]
 
+\* the key of a property is taken among the property names of ALL objects that share the
+\* object's key (foo / Foo are looked up as one group of structs)
 MkDoc(sch, n, counts, r) ==
-    [i \in 1..n |->
+    LET onames == {ObjNamesOf(sch)[x] : x \in 1..n}
+        OKey(i) == KeyIn(ObjNamesOf(sch)[i], onames)
+        Widest(i) == CHOOSE c \in {counts[j] : j \in {x \in 1..n : OKey(x) = OKey(i)}} :
+                        \A j \in {x \in 1..n : OKey(x) = OKey(i)} : counts[j] <= c
+    IN [i \in 1..n |->
         LET nm == ObjNamesOf(sch)[i] IN
-        [name |-> nm, title |-> NameTable[nm].title, key |-> KeyIn(nm, {ObjNamesOf(sch)[x] : x \in 1..n}),
+        [name |-> nm, title |-> NameTable[nm].title, key |-> OKey(i),
          props |-> [k \in 1..counts[i] |->
-                      MkProp(sch, k, counts[i], Kinds[((r + Before(counts, i) + k - 1) % NK) + 1], n)]]]
+                      MkProp(sch, k, Widest(i), Kinds[((r + Before(counts, i) + k - 1) % NK) + 1], n)]]]
 
 ArgForms(sch, n) == {[form |-> "no_ignore", ign |-> ""]}
                     \cup {[form |-> "with_ignore", ign |-> x] : x \in {ObjNamesOf(sch)[i] : i \in 1..n} \cup {AbsentName}}
